@@ -754,6 +754,18 @@ def run(ctx):
              'forwards the message\'s own fields', floor=20)
     for fam in SA:
         r6_token(ctx, fam)
+    ctx.rule('C06.R8', 'the pub/sub layer does not touch the callbacks '
+             'table itself: callbacks given to an emit are completed through '
+             'trigger_callback only, and dropped only with their client on '
+             'the host that owns it (shared rule)', floor=8)
+    from .common import table_owners
+    table_owners(ctx, 'callbacks', ('BaseManager',),
+                 ('__init__', '_generate_ack_id', 'trigger_callback',
+                  'basic_disconnect'), 'C06.R8',
+                 'a host that saw a disconnect request pass by must not '
+                 'forget a callback whose acknowledgement is still on the '
+                 'channel, and a callback must not be registered under a '
+                 'second id')
     ctx.rule('C07.R8', 'channel codec agreement: the listener accepts every '
              'message the bundled publishers can serialise', floor=4)
     for fam in SA:
